@@ -10,12 +10,23 @@ Local Arguments Z.sub : simpl never.
 Lemma nactive_app p k : nactive (p ++ k) = nactive p + nactive k.
 Proof. induction p as [|f r IH]; simpl; [lia|]. rewrite IH. lia. Qed.
 
-Lemma fr_ok_app p : forall b k, fr_ok b (p ++ k) -> fr_ok (b - nactive p) k.
+Lemma extra_nonneg dp f : 0 <= dp -> 0 <= extra dp f.
+Proof. unfold extra. intros. destruct (h_pc f); destruct (h_r f =? 0); lia. Qed.
+
+(* the activations above one that is past its increment found blocked_ <> 0: their callbacks never ran, they took no block *)
+Lemma fr_ok_above pre : forall b dp f post,
+  fr_ok b dp (pre ++ f :: post) -> h_pc f <> HInc -> 0 <= h_r f -> 0 <= dp ->
+  b = h_r f + 1 + extra dp f + nactive pre /\ fr_ok (h_r f) dp post.
 Proof.
-  induction p as [|f r IH]; intros b k H; simpl in *.
-  - replace (b - 0) with b by lia. exact H.
-  - unfold active. destruct (h_pc f); [replace (b - (0 + nactive r)) with (b - nactive r) by lia; apply IH; exact H|..];
-      destruct H as [_ H]; apply IH in H; replace (b - (1 + nactive r)) with (b - 1 - nactive r) by lia; exact H.
+  induction pre as [|g pre IH]; intros b dp f post H Hpc Hr Hdp; simpl in H |- *.
+  - destruct (h_pc f); try congruence; destruct H as [H1 H2];
+      (split; [lia|replace (h_r f) with (b - 1 - extra dp f) by lia; exact H2]).
+  - pose proof (extra_nonneg dp f Hdp) as He. pose proof (nactive_nonneg pre) as Hn.
+    unfold active. destruct (h_pc g) eqn:Hg.
+    1: { destruct (IH _ _ _ _ H Hpc Hr Hdp) as [E1 E2]. split; [lia|exact E2]. }
+    all: destruct H as [H1 H2]; destruct (IH _ _ _ _ H2 Hpc Hr Hdp) as [E1 E2];
+      assert (Hx : extra dp g = 0) by (unfold extra; rewrite Hg; first [reflexivity|destruct (Z.eqb_spec (h_r g) 0); [lia|reflexivity]]);
+      (split; [lia|exact E2]).
 Qed.
 
 Lemma nactive_zero k : nactive k = 0 -> Forall (fun g => h_pc g = HInc) k.
@@ -28,31 +39,46 @@ Qed.
 Lemma in_cb_active f : in_cb f = true -> active f = 1 /\ (h_pc f = HCbEnter \/ h_pc f = HCbExit).
 Proof. unfold in_cb, active. destruct (h_pc f); try discriminate; auto. Qed.
 
-Lemma cb_core s pre f post :
-  Inv s -> stack s = pre ++ f :: post -> in_cb f = true ->
-  depth s = 0 /\ stops s = 0 /\ nactive post = 0 /\ blocked s = 1 + nactive pre.
+Lemma inv_frame s pre f post : Inv s -> stack s = pre ++ f :: post -> h_sig f <> 0 /\ 0 <= h_r f.
 Proof.
-  intros [Hc Hdp Hst _ _ Hf Hbr _ _ _ _] Hs Hcb.
-  rewrite Hs in *. apply in_cb_active in Hcb. destruct Hcb as [Ha Hpc].
-  apply fr_ok_app in Hf. rewrite nactive_app in Hc. simpl in Hc, Hf. rewrite Ha in Hc.
-  apply Forall_app in Hbr. destruct Hbr as [_ Hbr]. inversion Hbr as [|? ? Hb1 _]; subst.
-  unfold br_ok in Hb1. pose proof (nactive_nonneg post).
-  destruct Hpc as [Hpc|Hpc]; rewrite Hpc in *; [|destruct Hb1 as [Hb1 _]]; destruct Hf as [Hf _]; lia.
+  intros HI Hs. pose proof (i_sig s HI) as H. rewrite Hs in H. apply Forall_app in H. destruct H as [_ H].
+  inversion H; subst; assumption.
 Qed.
 
+Lemma cb_core s pre f post :
+  Inv s -> stack s = pre ++ f :: post -> in_cb f = true ->
+  stops s = 0 /\ nactive post = 0 /\ blocked s = 1 + depth s + nactive pre /\ (h_pc f = HCbEnter -> depth s = 0).
+Proof.
+  intros HI Hs Hcb. destruct (inv_frame _ _ _ _ HI Hs) as [_ Hr].
+  destruct HI as [Hc Hdp [Hst _] _ _ Hf Hbr _ _ _ _].
+  rewrite Hs in *. apply in_cb_active in Hcb. destruct Hcb as [Ha Hpc].
+  assert (Hni : h_pc f <> HInc) by (destruct Hpc as [E|E]; rewrite E; discriminate).
+  destruct (fr_ok_above _ _ _ _ _ Hf Hni Hr Hdp) as [E1 _].
+  rewrite nactive_app in Hc. simpl in Hc. rewrite Ha in Hc.
+  apply Forall_app in Hbr. destruct Hbr as [_ Hbr]. inversion Hbr as [|? ? Hb1 _]; subst.
+  unfold br_ok in Hb1. pose proof (nactive_nonneg post). unfold extra in E1.
+  destruct Hpc as [Hpc|Hpc]; rewrite Hpc in *.
+  - rewrite Hb1 in E1. repeat split; try lia.
+  - destruct Hb1 as [Hb1 _]. rewrite Hb1 in E1. simpl in E1. repeat split; try lia. discriminate.
+Qed.
+
+(* Whenever an activation f is about to enter / is inside the callback: no callback has answered stop, every activation
+   below f has not even incremented yet, no other activation is in the callback, blocked_ = 1 + the blocks the application
+   holds + the (remembering) activations above f - and when f is ABOUT TO ENTER the application holds no block at all; inside
+   the callback the blocks held are exactly those the callback itself has taken (cb_block, see callback_taken_blocks). *)
 Theorem never_while_blocked o a s pre f post :
   bal 0 o = true -> reach o a s -> stack s = pre ++ f :: post -> in_cb f = true ->
-  depth s = 0 /\ stops s = 0 /\ blocked s = 1 + nactive pre /\
+  (h_pc f = HCbEnter -> depth s = 0) /\ stops s = 0 /\ blocked s = 1 + depth s + nactive pre /\
   Forall (fun g => in_cb g = false) (pre ++ post) /\ Forall (fun g => h_pc g = HInc) post.
 Proof.
   intros Hb Hr Hs Hcb. pose proof (reach_inv _ _ _ Hb Hr) as HI.
-  destruct (cb_core _ _ _ _ HI Hs Hcb) as [H1 [H2 [H3 H4]]].
+  destruct (cb_core _ _ _ _ HI Hs Hcb) as [H2 [H3 [H4 H1]]].
   repeat split; auto.
   - apply Forall_app. split.
     + apply Forall_forall. intros g Hg. destruct (in_cb g) eqn:Hgc; [|reflexivity]. exfalso.
       apply in_split in Hg. destruct Hg as [p1 [p2 Hp]]. subst pre.
       rewrite <- app_assoc in Hs. simpl in Hs.
-      destruct (cb_core _ _ _ _ HI Hs Hgc) as [_ [_ [H5 _]]].
+      destruct (cb_core _ _ _ _ HI Hs Hgc) as [_ [H5 _]].
       rewrite nactive_app in H5. simpl in H5. apply in_cb_active in Hcb. destruct Hcb as [Ha _].
       pose proof (nactive_nonneg p2). pose proof (nactive_nonneg post). lia.
     + eapply Forall_impl; [|apply nactive_zero; exact H3]. intros g Hg. unfold in_cb. rewrite Hg. reflexivity.
@@ -68,9 +94,19 @@ Proof.
   intros Hb Hr Hs Hpc.
   assert (Hcb : in_cb f = true) by (unfold in_cb; rewrite Hpc; reflexivity).
   destruct (never_while_blocked o a s [] f rest Hb Hr Hs Hcb) as [H1 [H2 [H3 [_ H5]]]].
-  simpl in H3. repeat split; auto; try lia.
+  specialize (H1 Hpc). simpl in H3. repeat split; auto; try lia.
   pose proof (reach_inv _ _ _ Hb Hr) as [_ _ _ _ _ _ Hbr _ _ _ _]. rewrite Hs in Hbr.
   inversion Hbr as [|? ? Hb1 _]; subst. unfold br_ok in Hb1. rewrite Hpc in Hb1. exact Hb1.
+Qed.
+
+(* while the application holds a block (its own or one a callback took) no activation is about to enter the callback *)
+Corollary no_entry_while_holding o a s :
+  bal 0 o = true -> reach o a s -> 1 <= depth s -> Forall (fun f => h_pc f <> HCbEnter) (stack s).
+Proof.
+  intros Hb Hr Hd. apply Forall_forall. intros f Hin E.
+  destruct (in_split f (stack s) Hin) as (pre & post & Hsp).
+  assert (Hcb : in_cb f = true) by (unfold in_cb; rewrite E; reflexivity).
+  destruct (never_while_blocked o a s pre f post Hb Hr Hsp Hcb) as [H1 _]. specialize (H1 E). lia.
 Qed.
 
 (* ------------------------------------------------------------------------------------------- *)
@@ -203,10 +239,11 @@ Proof.
   destruct (total_parts i s) as [H1 [H2 H3]]. destruct (i <? length (arrs s))%nat; lia.
 Qed.
 
-(* never lost: no arrival ever gets the fate FLost, and FStopLost needs a callback that answered stop *)
+(* never lost: no arrival ever gets the fate FLost, and FStopLost needs a callback that answered stop or that took a
+   block itself (either way blocked_ <> 0 is what the deferred delivery found) *)
 Theorem never_lost o a s i :
   bal 0 o = true -> reach o a s ->
-  ~ In (i, FLost) (fates s) /\ (In (i, FStopLost) (fates s) -> 0 < stops s).
+  ~ In (i, FLost) (fates s) /\ (In (i, FStopLost) (fates s) -> 0 < stops s + cbt s).
 Proof.
   intros Hb Hr. destruct (reach_tok _ _ _ Hb Hr) as [_ _ _ _ Hl Hs]. split; [apply Hl|apply Hs].
 Qed.
@@ -245,10 +282,11 @@ Proof.
   destruct (Z.eqb_spec (pending s) 0); [contradiction|]. destruct dl; simpl; rewrite ?Hs; repeat split; reflexivity.
 Qed.
 
-(* the take only follows a decrement that returned 1, and then the main flow holds no block: it is outermost *)
-Theorem take_is_outermost o a s dl : bal 0 o = true -> reach o a s -> mpc_ s = MTake dl -> depth s = 0.
+(* the take only follows a decrement that returned 1: it is outermost - the application holds no block then, except
+   blocks that callbacks took (a callback that ran between the decrement and the take; none if no callback ever took one) *)
+Theorem take_is_outermost o a s dl : bal 0 o = true -> reach o a s -> mpc_ s = MTake dl -> 0 <= depth s <= cbt s.
 Proof.
-  intros Hb Hr Hm. pose proof (reach_inv _ _ _ Hb Hr) as [_ _ _ _ Hmp _ _ _ _ _ _]. rewrite Hm in Hmp. exact Hmp.
+  intros Hb Hr Hm. pose proof (reach_inv _ _ _ Hb Hr) as [_ Hd _ _ Hmp _ _ _ _ _ _]. rewrite Hm in Hmp. lia.
 Qed.
 
 Theorem take_after_release at_ s dl :
@@ -261,50 +299,112 @@ Proof.
   intro H. inversion H; subst. rewrite H1. repeat split; try reflexivity. eexists; reflexivity.
 Qed.
 
-(* the deferred activation finds blocked_ = 0 (and so delivers, by immediate_branch) unless a callback answered stop *)
+(* the deferred activation finds blocked_ = 0 (and so delivers, by immediate_branch) unless a callback answered stop
+   or took a block: what it finds is exactly the blocks held (all callback-taken) plus the stops *)
 Theorem deferred_runs o a s f rest :
-  bal 0 o = true -> reach o a s -> stack s = f :: rest -> h_def f = true -> h_pc f = HInc -> stops s = 0 ->
-  rest = [] /\ blocked s = 0.
+  bal 0 o = true -> reach o a s -> stack s = f :: rest -> h_def f = true -> h_pc f = HInc ->
+  rest = [] /\ blocked s = depth s + stops s /\ 0 <= depth s <= cbt s /\ (stops s = 0 -> cbt s = 0 -> blocked s = 0).
 Proof.
-  intros Hb Hr Hs Hd Hpc Hst. pose proof (reach_inv _ _ _ Hb Hr) as [Hc _ _ _ _ _ _ Hdef Hhd _ _].
+  intros Hb Hr Hs Hd Hpc. pose proof (reach_inv _ _ _ Hb Hr) as [Hc Hdp _ _ _ _ _ Hdef Hhd _ _].
   rewrite Hs in *. simpl in *. destruct Hdef as [Hdef _].
   assert (rest = []) as ->. { destruct rest; [reflexivity|]. specialize (Hdef ltac:(discriminate)). congruence. }
-  split; [reflexivity|]. rewrite Hd in Hhd. specialize (Hhd eq_refl). unfold active in Hc. rewrite Hpc in Hc. simpl in Hc. lia.
+  rewrite Hd in Hhd. specialize (Hhd eq_refl). unfold active in Hc. rewrite Hpc in Hc. simpl in Hc.
+  repeat split; try reflexivity; lia.
 Qed.
 
 (* ------------------------------------------------------------------------------------------- *)
 (* the nesting count is restored                                                                 *)
 (* ------------------------------------------------------------------------------------------- *)
+(* the activation's own decrement leaves blocked_ = (what its increment returned) + the blocks its callback took:
+   [extra (depth s) f] is 0 unless the increment returned 0 (only then the callback ran), and then it is every block the
+   application holds - all of them taken by that callback (the entry depth was 0: callback_entry_unblocked) *)
 Theorem nesting_restored o a s f rest :
   bal 0 o = true -> reach o a s -> stack s = f :: rest -> h_pc f = HDec ->
-  blocked (step true 0 s) = h_r f /\ stack (step true 0 s) = rest.
+  blocked (step true 0 s) = h_r f + extra (depth s) f /\ stack (step true 0 s) = rest /\
+  (h_r f <> 0 -> blocked (step true 0 s) = h_r f) /\ (depth s = 0 -> blocked (step true 0 s) = h_r f).
 Proof.
   intros Hb Hr Hs Hpc. pose proof (reach_inv _ _ _ Hb Hr) as [_ _ _ _ _ Hf _ _ _ _ _].
   rewrite Hs in Hf. simpl in Hf. rewrite Hpc in Hf. destruct Hf as [Hf _].
-  unfold step. simpl. rewrite Hs. unfold hstep. rewrite Hpc. simpl. split; [lia|reflexivity].
+  unfold step. simpl. rewrite Hs. unfold hstep. rewrite Hpc. simpl.
+  repeat split; try lia; unfold extra in Hf; rewrite Hpc in Hf; destruct (Z.eqb_spec (h_r f) 0); lia.
 Qed.
 
-(* in general: for every activation past its increment, blocked_ = (what its increment returned) + 1 + the
-   activations above it that are past theirs *)
+(* in general: for every activation past its increment, blocked_ = (what its increment returned) + 1 + the blocks its
+   callback took + the activations above it that are past theirs (those found blocked_ <> 0: no callback, no block) *)
 Theorem nesting_general o a s pre f post :
   bal 0 o = true -> reach o a s -> stack s = pre ++ f :: post -> h_pc f <> HInc ->
-  blocked s = h_r f + 1 + nactive pre.
+  blocked s = h_r f + 1 + extra (depth s) f + nactive pre.
 Proof.
-  intros Hb Hr Hs Hpc. pose proof (reach_inv _ _ _ Hb Hr) as [_ _ _ _ _ Hf _ _ _ _ _].
-  rewrite Hs in Hf. apply fr_ok_app in Hf. simpl in Hf. destruct (h_pc f); try congruence; destruct Hf as [Hf _]; lia.
+  intros Hb Hr Hs Hpc. pose proof (reach_inv _ _ _ Hb Hr) as HI. destruct (inv_frame _ _ _ _ HI Hs) as [_ Hr0].
+  destruct HI as [_ Hdp _ _ _ Hf _ _ _ _ _].
+  rewrite Hs in Hf. destruct (fr_ok_above _ _ _ _ _ Hf Hpc Hr0 Hdp) as [E _]. exact E.
 Qed.
 
-(* a callback that answers continue leaves blocked_ = 0 behind, as it was before the arrival's increment *)
+(* a callback that answers continue leaves behind blocked_ = the blocks it took itself (0 if it took none: as it was
+   before the arrival's increment), all of them held by the application *)
 Corollary callback_continue_restores o a s f rest :
   bal 0 o = true -> reach o a s -> stack s = f :: rest -> h_pc f = HCbExit -> answer s = true ->
-  let s2 := step true 0 (step true 0 s) in blocked s2 = 0 /\ stack s2 = rest /\ stops s2 = stops s.
+  let s2 := step true 0 (step true 0 s) in
+  blocked s2 = depth s /\ depth s2 = depth s /\ stack s2 = rest /\ stops s2 = stops s /\ (depth s = 0 -> blocked s2 = 0).
 Proof.
   intros Hb Hr Hs Hpc Ha.
   assert (Hcb : in_cb f = true) by (unfold in_cb; rewrite Hpc; reflexivity).
   destruct (never_while_blocked o a s [] f rest Hb Hr Hs Hcb) as [_ [_ [H3 _]]]. simpl in H3.
-  assert (E1 : step true 0 s = mk (blocked s) (pending s) (pend_id s) (mpc_ s) (ops s) (set_pc f HDec :: rest)
+  assert (E1 : step true 0 s = mk (cbt s) (blocked s) (pending s) (pend_id s) (mpc_ s) (ops s) (set_pc f HDec :: rest)
                                    (tl (answers s)) (arrs s) (depth s) (stops s) (fates s)).
   { unfold step. simpl. rewrite Hs. unfold hstep. rewrite Hpc. unfold answer in Ha.
     destruct (answers s) as [|[|] ?]; try discriminate; reflexivity. }
   cbv zeta. rewrite E1. unfold step. simpl. unfold hstep. simpl. repeat split; lia.
+Qed.
+
+(* ------------------------------------------------------------------------------------------- *)
+(* callbacks that take blocks themselves                                                        *)
+(* ------------------------------------------------------------------------------------------- *)
+Lemma cbb_iter s f rest : stack s = f :: rest -> h_pc f = HCbExit -> forall k,
+  Nat.iter k cb_block s = mk (cbt s + Z.of_nat k) (blocked s + Z.of_nat k) (pending s) (pend_id s) (mpc_ s) (ops s) (stack s)
+                             (answers s) (arrs s) (depth s + Z.of_nat k) (stops s) (fates s).
+Proof.
+  intros Hs Hpc. induction k as [|k IH].
+  - simpl. destruct s; simpl. f_equal; lia.
+  - rewrite Nat2Z.inj_succ. change (Nat.iter (S k) cb_block s) with (cb_block (Nat.iter k cb_block s)). rewrite IH. unfold cb_block. cbn [stack]. rewrite Hs, Hpc.
+    cbn [cbt blocked pending pend_id mpc_ ops stack answers arrs depth stops fates]. f_equal; lia.
+Qed.
+
+Lemma reach_iter_cbb o a k : forall s, reach o a s -> reach o a (Nat.iter k cb_block s).
+Proof. induction k as [|k IH]; intros s H; [exact H|]. change (Nat.iter (S k) cb_block s) with (cb_block (Nat.iter k cb_block s)). apply reach_cbb. apply IH. exact H. Qed.
+
+(* An arrival found blocked_ = 0 (entry value 0, the application holds no block); its callback is entered, calls
+   blockSignals() k times, answers continue and returns; the activation executes its own decrement.  Then blocked_ =
+   entry value + k = k, the application holds exactly k blocks, the activation is gone, nothing else changed - and by
+   no_entry_while_holding no callback is entered in any state reachable from there until those blocks are released. *)
+Theorem callback_taken_blocks o a s f rest k :
+  bal 0 o = true -> reach o a s -> stack s = f :: rest -> h_pc f = HCbEnter -> answer s = true ->
+  let s1 := Nat.iter k cb_block (step true 0 s) in
+  let s3 := step true 0 (step true 0 s1) in
+  reach o a s3 /\ h_r f = 0 /\ depth s = 0 /\
+  blocked s1 = 1 + Z.of_nat k /\
+  blocked s3 = h_r f + Z.of_nat k /\ depth s3 = Z.of_nat k /\ cbt s3 = cbt s + Z.of_nat k /\ stack s3 = rest /\
+  stops s3 = stops s /\ pending s3 = pending s /\ ops s3 = ops s /\ mpc_ s3 = mpc_ s /\
+  (1 <= Z.of_nat k -> Forall (fun g => h_pc g <> HCbEnter) (stack s3)).
+Proof.
+  intros Hb Hr Hs Hpc Ha.
+  destruct (callback_entry_unblocked o a s f rest Hb Hr Hs Hpc) as (Hd & Hst & Hbl & Hr0 & _).
+  assert (E0 : step true 0 s = mk (cbt s) (blocked s) (pending s) (pend_id s) (mpc_ s) (ops s) (set_pc f HCbExit :: rest)
+                                   (answers s) (arrs s) (depth s) (stops s) ((h_id f, FDelivered (h_sig f)) :: fates s)).
+  { unfold step. simpl. rewrite Hs. unfold hstep. rewrite Hpc. reflexivity. }
+  assert (E1 : Nat.iter k cb_block (step true 0 s) =
+               mk (cbt s + Z.of_nat k) (blocked s + Z.of_nat k) (pending s) (pend_id s) (mpc_ s) (ops s) (set_pc f HCbExit :: rest)
+                  (answers s) (arrs s) (depth s + Z.of_nat k) (stops s) ((h_id f, FDelivered (h_sig f)) :: fates s)).
+  { rewrite (cbb_iter (step true 0 s) (set_pc f HCbExit) rest); [rewrite E0; reflexivity|rewrite E0; reflexivity|reflexivity]. }
+  assert (Hreach : reach o a (step true 0 (step true 0 (Nat.iter k cb_block (step true 0 s))))).
+  { apply reach_step. apply reach_step. apply reach_iter_cbb. apply reach_step. exact Hr. }
+  cbv zeta. split; [exact Hreach|].
+  assert (E3 : step true 0 (step true 0 (Nat.iter k cb_block (step true 0 s))) =
+               mk (cbt s + Z.of_nat k) (blocked s + Z.of_nat k - 1) (pending s) (pend_id s) (mpc_ s) (ops s) rest
+                  (tl (answers s)) (arrs s) (depth s + Z.of_nat k) (stops s) ((h_id f, FDelivered (h_sig f)) :: fates s)).
+  { rewrite E1. unfold step. simpl. unfold hstep. simpl. unfold answer in Ha.
+    destruct (answers s) as [|[|] ?]; try discriminate; reflexivity. }
+  rewrite E3. rewrite E1. rewrite E3 in Hreach. split; [exact Hr0|]. split; [exact Hd|].
+  cbn [blocked depth cbt stack stops pending ops mpc_]. repeat split; try lia.
+  intro Hk. apply (no_entry_while_holding o a _ Hb Hreach). cbn [depth]. lia.
 Qed.
